@@ -15,7 +15,8 @@ from props.base import NAN, Prop, chunks, dec, enc
 STR_NAN = "__NAN__"
 STR_DEFAULT = "__OTHER__"
 O1_WITNESS = [7, 3, 3, 4, 6, 6, 7, 7]
-MIN_FREQS = [0.5, 0.4, 0.3, 0.25, 0.2, 0.15, 0.125, 0.1, 0.07, 0.05, 1 / 3, 1 / 7, 0.35, 0.45, 0.06]
+MIN_FREQS = [0.5, 0.4, 0.3, 0.25, 0.2, 0.15, 0.125, 0.1, 0.07, 0.05, 1 / 3, 1 / 7, 0.35, 0.45, 0.06,
+             0.15, 0.1, 0.07, 0.05, 0.04, 0.03, 0.02, 0.11, 0.09]
 LETTERS = list("abcdefghijklmnopqrstuvwxyz")
 
 
@@ -191,7 +192,8 @@ class C09(Prop):
     pid = "C09"
     theorems = ["C09_ordinal_buckets_frequent", "C09_quantitative_buckets_frequent",
                 "C09_merging_conserves_and_is_contiguous", "C09_merges_only_neighbours",
-                "C09_merging_terminates", "C09_rare_pass_trigger_irrelevant",
+                "C09_ordinal_fit_is_the_loop", "C09_merging_terminates",
+                "C09_rare_pass_trigger_irrelevant",
                 "C09_categorical_default_group", "C09_categorical_nan_separate",
                 "C09_boundaries", "C09_boundaries_then_inf", "C09_boundaries_strict_refuted",
                 "C09_boundaries_strict_partial", "C09_boundaries_strict_after_repair",
@@ -242,7 +244,7 @@ class C09(Prop):
                 m["x"], m["y"] = [c["x"][i] for i in idx], [c["y"][i] for i in idx]
                 cases.append(m)
         for kind in ("cont", "quant", "ord", "cat"):
-            for _ in range(60):
+            for _ in range(25):
                 cases.append(gen_case(rng, kind, "quick"))
         return cases
 
